@@ -4,6 +4,7 @@
 -/
 import XC.Model.C13
 import XC.Proofs.C13
+import XC.Proofs.C13_MemXts
 namespace XC.C13
 
 /-- the byte loop with carry and 0x87 feedback is multiplication by x in GF(2^128)/(x^128+x^7+x^2+x+1)
@@ -150,6 +151,96 @@ theorem inexactOverlap_iff (n : Nat) (d : Int) :
   by_cases hn : n = 0
   · subst hn; simp
   · simp [hn]
+
+/-! ## memory model: in place = out of place, overlap panic -/
+
+theorem inexactOverlapSl_iff (d s n : Nat) :
+    inexactOverlapSl ⟨d, n⟩ ⟨s, n⟩ = true ↔ n ≠ 0 ∧ d ≠ s ∧ d < s + n ∧ s < d + n := by
+  unfold inexactOverlapSl
+  by_cases hn : n = 0
+  · subst hn; simp
+  · by_cases hds : d = s
+    · subst hds; simp
+    · simp only [hn, hds, Bool.or_self, Bool.false_eq_true, if_false, Bool.and_eq_true, decide_eq_true_eq]
+      omega
+
+/-- the arena version panics under exactly the same conditions as the functional model, the overlap
+    condition being `alias.InexactOverlap(dst[:len(src)], src)` on the two windows -/
+theorem cryptMem_panic_iff (f E2 : Bytes → Bytes) (mem : Bytes) (dst src : Sl) (sector : UInt64) :
+    cryptMem f E2 mem dst src sector = .panic ↔
+      dst.len < src.len ∨ src.len % 16 ≠ 0 ∨
+        (src.len ≠ 0 ∧ dst.off ≠ src.off ∧ dst.off < src.off + src.len ∧ src.off < dst.off + src.len) := by
+  unfold cryptMem
+  rw [← inexactOverlapSl_iff]
+  by_cases h1 : dst.len < src.len
+  · simp [h1]
+  · by_cases h2 : src.len % 16 = 0
+    · by_cases h3 : inexactOverlapSl ⟨dst.off, src.len⟩ ⟨src.off, src.len⟩ = true
+      · simp [h1, h2, h3]
+      · simp [h1, h2, h3]
+    · simp [h1, h2]
+
+/-- **in place = out of place** (f = E1 for Encrypt, D1 for Decrypt): whenever the call on the arena does
+    not panic — dst[:n] and src are the same window or do not overlap — the arena afterwards is the
+    arena before with dst[:n] replaced by the result of the functional model on a separate copy of src.
+    Block j is read before block j is written; the pooled tweak array is not part of the arena. -/
+theorem xts_inplace_eq (f E2 : Bytes → Bytes) (hf : ∀ x, x.length = 16 → (f x).length = 16)
+    (hE2 : ∀ x, (E2 x).length = 16) (mem : Bytes) (dst src : Sl) (sector : UInt64) (mem' : Bytes)
+    (hd : dst.off + dst.len ≤ mem.length) (hs : src.off + src.len ≤ mem.length)
+    (h : cryptMem f E2 mem dst src sector = .ok mem') :
+    ∃ out, encrypt f E2 dst.len none (Mem.rd mem src.off src.len) sector = .ok out ∧
+      out.length = src.len ∧ mem' = Mem.wr mem dst.off out ∧ Mem.rd mem' dst.off src.len = out := by
+  unfold cryptMem at h
+  split at h; · cases h
+  rename_i h1
+  split at h; · cases h
+  rename_i h2
+  split at h; · cases h
+  rename_i h3
+  injection h with h
+  have h2' : src.len % 16 = 0 := by simpa using h2
+  have hk : src.len = 16 * (src.len / 16) := by omega
+  have hov : dst.off ≤ src.off ∨ src.off + 16 * (src.len / 16) ≤ dst.off := by
+    rw [← hk]
+    have hno : ¬ (src.len ≠ 0 ∧ dst.off ≠ src.off ∧ dst.off < src.off + src.len ∧ src.off < dst.off + src.len) :=
+      fun hc => h3 ((inexactOverlapSl_iff dst.off src.off src.len).mpr hc)
+    omega
+  have hrl : (Mem.rd mem src.off src.len).length = src.len := Mem.rd_length _ _ _ hs
+  have hm := memLoop_eq f hf (initTweak E2 sector) (by unfold initTweak; exact hE2 _) (src.len / 16) mem dst.off src.off
+    (by omega) (by omega) hov
+  rw [← hk] at hm
+  have hout : (loop f (chunks 16 (Mem.rd mem src.off src.len)) (initTweak E2 sector)).length = src.len := by
+    have hk' : (Mem.rd mem src.off src.len).length = (src.len / 16) * 16 := by rw [hrl]; omega
+    obtain ⟨c1, c2⟩ := chunks_spec 16 (by decide) _ _ hk'
+    have : ∀ (ps : List Bytes) (tw : Bytes), (∀ p ∈ ps, p.length = 16) → tw.length = 16 →
+        (loop f ps tw).length = 16 * ps.length := by
+      intro ps
+      induction ps with
+      | nil => intro tw _ _; rfl
+      | cons p ps ih =>
+        intro tw hp ht
+        have hp16 := hp p (by simp)
+        have hx : (xorBytes p tw).length = 16 := by simp [xorBytes_length, hp16, ht]
+        simp only [loop, List.length_append, List.length_cons]
+        rw [ih (mul2 tw) (fun q hq => hp q (by simp [hq])) (by rw [mul2_length, ht])]
+        simp [xorBytes_length, hf _ hx, ht]; omega
+    rw [this _ (initTweak E2 sector) c2 (by unfold initTweak; exact hE2 _)]
+    have hfl : (chunks 16 (Mem.rd mem src.off src.len)).flatten.length = 16 * (chunks 16 (Mem.rd mem src.off src.len)).length := by
+      generalize chunks 16 (Mem.rd mem src.off src.len) = cs at c2
+      induction cs with
+      | nil => rfl
+      | cons c cs ih =>
+        simp only [List.flatten_cons, List.length_append, List.length_cons]
+        rw [ih (fun q hq => c2 q (by simp [hq])), c2 c (by simp)]; omega
+    rw [← hfl, c1, hrl]
+  refine ⟨loop f (chunks 16 (Mem.rd mem src.off src.len)) (initTweak E2 sector), ?_, hout, ?_, ?_⟩
+  · unfold encrypt
+    simp [hrl, h1, h2', inexactOverlap]
+  · rw [← h, hm]
+  · rw [← h, hm]
+    have := rd_wr_same mem dst.off _ (by rw [hout]; omega)
+    rw [hout] at this
+    exact this
 
 /-- the toy block cipher of the harness really is a permutation with `dec` as inverse (so the
     round-trip theorem applies to the toy runs) -/
